@@ -499,7 +499,7 @@ theorem C10_gen_shape_graph : Gen.Reward.topoSortIsPostOrder = true ∧ Gen.Rewa
 /-- a component whose configuration omits `weight` is registered with the model's default, and `RewardFunction.__init__`
 passes the configured weight to `register_component` unchanged -/
 theorem C10_gen_default_weight :
-    Gen.Reward.defaultWeight = defaultWeight ∧ Gen.Reward.registerDefaultWeight = defaultWeight ∧
+    Gen.Reward.defaultWeight = some defaultWeight ∧ Gen.Reward.registerDefaultWeight = some defaultWeight ∧
     Gen.Reward.weightPassedUnchanged = true := by
   decide
 
